@@ -4,6 +4,7 @@ from checks import common, attempt_driver
 
 def body(chk):
     attempt_driver.run(chk, 'C10')
+    attempt_driver.run_pair(chk, 'C10')   # two attempts interleaved on one thread: net effect on the process panic hook
     from checks import sched_worlds
     sched_worlds.run(chk, 'C10')       # panic-hook automaton on the simulated scheduler loop
 
